@@ -6,6 +6,7 @@ import Sourcer.Proofs.Positions
 import Sourcer.Proofs.Spans
 import Sourcer.Proofs.Bounded
 import Sourcer.Api
+import Sourcer.Proofs.ObjectsProofs
 /-
   Property theorems (statements only; proofs are one-liners over Sourcer/Proofs/*).
   Every theorem is followed by an `example` showing its hypotheses are met by a concrete,
@@ -550,5 +551,56 @@ theorem C10_ordered_list (P : Program) (inp : List Nat) (hm : MatcherBounded P) 
 -- non-vacuity: a class with two members on `ab`
 example : peg exP [97, 98] 4 (.cls "C" [.str [97] false, .str [98] false] [some "x", some "y"]) 0
     = some (.ok (.obj "C" [("x", .str [97]), ("y", .str [98])] (some (0, 2))) 2) := by rfl
+
+/-! ## C14 – parsed objects are values -/
+
+section C14
+open Obj
+
+/-- `==` on result trees is an equivalence relation -/
+theorem C14_eq_equivalence :
+    (∀ a : PV, peq a a = true) ∧ (∀ a b : PV, peq a b = true → peq b a = true) ∧
+    (∀ a b c : PV, peq a b = true → peq b c = true → peq a c = true) :=
+  ⟨peq_refl, peq_symm, peq_trans⟩
+
+/-- two objects are equal exactly when they have the same class and pairwise equal fields;
+    position metadata (and identity) play no role -/
+theorem C14_eq_iff_same_class_and_fields (c d : Nat) (xs ys : List PV) (m m' : Option (Nat × Nat)) :
+    peq (.obj c xs m) (.obj d ys m') = (c == d && peqList xs ys) := by simp [peq]
+
+/-- an object never equals a scalar, a list, a tuple or a dict -/
+theorem C14_obj_ne_other (c : Nat) (xs : List PV) (m : Option (Nat × Nat)) (b : PV)
+    (h : ∀ d ys m', b ≠ .obj d ys m') : peq (.obj c xs m) b = false ∧ peq b (.obj c xs m) = false := by
+  cases b <;> simp_all [peq]
+
+/-- equal objects have equal hashes, whatever their fields hold (for any builtin hash functions
+    in which a tuple's hash is a function of its elements' hashes) -/
+theorem C14_eq_implies_hash_eq (hf : HashFns) (a b : PV) (h : peq a b = true) : H hf a = H hf b :=
+  H_congr hf a b h
+
+/-- `_asdict()` lists the fields in declaration order -/
+theorem C14_asdict_order (names : List String) (fs : List PV) (h : names.length = fs.length) :
+    (asdict names fs).map (·.1) = names ∧ (asdict names fs).map (·.2) = fs := by
+  unfold asdict
+  constructor
+  · rw [List.map_fst_zip]; omega
+  · rw [List.map_snd_zip]; omega
+
+/-- `_replace(**kw)` yields an object of the same class with the same metadata whose fields are
+    the given ones where given and the old ones elsewhere -/
+theorem C14_replace (c : Nat) (fs : List PV) (m : Option (Nat × Nat)) (kw : Nat → Option PV) :
+    ∃ fs', replace (.obj c fs m) kw = .obj c fs' m ∧ fs'.length = fs.length ∧
+      ∀ j, j < fs.length → fs'[j]? = (kw j).orElse (fun _ => fs[j]?) := by
+  refine ⟨replaceFields fs 0 kw, rfl, replaceFields_length fs 0 kw, ?_⟩
+  intro j hj
+  have := replaceFields_get fs 0 kw j hj
+  simpa using this
+
+-- non-vacuity: two equal-but-not-identical trees with a list, a dict and a nested object inside
+example : peq (.obj 1 [.int 1, .list [.str [97], .dict [(.str [98], .bool true)]], .obj 2 [.none] (some (0, 1))] none)
+              (.obj 1 [.bool true, .list [.str [97], .dict [(.str [98], .int 1)]], .obj 2 [.none] (some (5, 9))] (some (3, 4)))
+    = true := by rfl
+
+end C14
 
 end Sourcer
